@@ -367,7 +367,12 @@ struct conf_node_string *conf_register_string(struct conf_node_object *parent, e
     struct conf_node_string *cnode;
 
     cnode = conf_register_node(parent, name, CONF_STRING, sizeof(*cnode));
-    cnode->subtype = subtype;
+    if (cnode->subtype != subtype) {
+        /* Whatever was remembered belongs to the old interpretation
+         * (the file's text, for a node the parser made). */
+        memset(&cnode->parsed, 0, sizeof(cnode->parsed));
+        cnode->subtype = subtype;
+    }
     cnode->def_value = def_value;
     conf_parse_string_value(cnode);
     return cnode;
